@@ -1050,6 +1050,14 @@ fn fuzz_only() -> &'static str {
 /// touches (virtual clock, yield hooks) is thread-local and reset around the run.
 pub fn fuzz_lockstep(data: &[u8]) {
     let case = crate::fuzzdec::decode_case(data);
+    // domain: only C18 speaks about keys that share an index hash (DESIGN section 7)
+    let only = fuzz_only();
+    let mut idx: Vec<u64> = case.cfg.keys.iter().map(|k| k.0).collect();
+    idx.sort_unstable();
+    idx.dedup();
+    if idx.len() != case.cfg.keys.len() && only != "C18" {
+        return;
+    }
     stretto::verif::set_thread_yield_hook(None);
     stretto::verif::set_thread_yield_hook2(None);
     let rep = run_case(&case, false);
@@ -1057,7 +1065,6 @@ pub fn fuzz_lockstep(data: &[u8]) {
     stretto::verif::set_thread_yield_hook(None);
     stretto::verif::set_thread_yield_hook2(None);
     if let Ok(rep) = rep {
-        let only = fuzz_only();
         if let Some(f) = rep.failures.iter().find(|f| only.is_empty() || f.is_for(only)) {
             panic!("ORACLE {} [{}] step {}: {}", f.props.join(","), f.pred, f.step, f.msg);
         }
@@ -1089,6 +1096,12 @@ pub fn replay_fuzz_artifact(prop: &str, target: &str, data: &[u8]) -> (Vec<Strin
         }
         _ => {
             let case = crate::fuzzdec::decode_case(data);
+            let mut idx: Vec<u64> = case.cfg.keys.iter().map(|k| k.0).collect();
+            idx.sort_unstable();
+            idx.dedup();
+            if idx.len() != case.cfg.keys.len() && prop != "C18" {
+                return (vec![], vec!["this input maps two keys to one index hash: outside the domain of every property but C18".to_string()]);
+            }
             let mut trace = vec![format!("decoded case: {}", serde_json::to_string(&case).unwrap_or_default())];
             let (f, t) = replay_ls(prop, &case);
             trace.extend(t);
